@@ -272,6 +272,67 @@ impl Prop for P {
             },
             None => "fail=none".to_string(),
         };
+        // the same keys handed over in ONE extend_iter / extend_stream call on the same kind of sink: an I/O
+        // failure is reported as Err(Io) by that call (or by finish), never a panic, never success; without a
+        // failure the sink ends up complete
+        if c.cap.is_none() && (spec == "err-io" || spec == "finished") {
+            let base = c.kind.strip_suffix("+finish").unwrap_or(&c.kind).to_string();
+            let kvs = c.kvs.clone();
+            let script = c.script.clone();
+            let (flush, prefill) = (c.flush, c.prefill.clone());
+            let route = (c.kvs.len() + c.script.len()) % 2;
+            let out = std::panic::catch_unwind(move || {
+                let mut sink = ScriptSink::new(script, flush, &prefill);
+                let r: Result<(), fst::Error> = (|| match base.as_str() {
+                    "map" => {
+                        let mut b = fst::MapBuilder::new(&mut sink)?;
+                        if route == 0 {
+                            b.extend_iter(kvs.iter().map(|(k, v)| (k.clone(), *v)))?;
+                        } else {
+                            b.extend_stream(crate::core::MapVecStream { items: kvs.clone(), pos: 0 })?;
+                        }
+                        b.finish()
+                    }
+                    "set" => {
+                        let mut b = fst::SetBuilder::new(&mut sink)?;
+                        if route == 0 {
+                            b.extend_iter(kvs.iter().map(|(k, _)| k.clone()))?;
+                        } else {
+                            b.extend_stream(crate::core::KeyStream { items: kvs.iter().map(|(k, _)| k.clone()).collect(), pos: 0 })?;
+                        }
+                        b.finish()
+                    }
+                    "raw-insert" => {
+                        let mut b = fst::raw::Builder::new(&mut sink)?;
+                        if route == 0 {
+                            b.extend_iter(kvs.iter().map(|(k, v)| (k.clone(), fst::raw::Output::new(*v))))?;
+                        } else {
+                            b.extend_stream(crate::core::VecStream { items: kvs.clone(), pos: 0 })?;
+                        }
+                        b.finish()
+                    }
+                    _ => Ok(()),
+                })();
+                (r.map_err(|e| matches!(e, fst::Error::Io(_))), sink.data)
+            });
+            if c.kind.starts_with("raw-add") {
+                // no batch entry point calls add
+            } else {
+                match (spec.as_str(), out) {
+                    (_, Err(_)) => x = "the same keys through one extend_iter/extend_stream call: PANIC".to_string(),
+                    ("err-io", Ok((Ok(()), _))) => x = "the same keys through one extend call: the sink failed but extend + finish reported success".to_string(),
+                    ("err-io", Ok((Err(false), _))) => x = "the same keys through one extend call: the error is not Err(Io)".to_string(),
+                    ("finished", Ok((Err(_), _))) => x = "the same keys through one extend call fail although the per-key session finished".to_string(),
+                    ("finished", Ok((Ok(()), data))) => {
+                        if data.len() < npre || data[npre..] != r.bytes[..] {
+                            x = "the same keys through one extend call: the sink holds other bytes".to_string();
+                        }
+                    }
+                    _ => {}
+                }
+                xcount("same_keys_through_one_extend_call");
+            }
+        }
         format!("S:{}\tM:{}|{}\tX:{}", spec, f, m_common(&s, npre, total), x)
     }
 }
